@@ -15,7 +15,11 @@ RULE = ("seeded generator of histories on 1-3 raw QUIC connections to one real s
         "streams opening with 0x401 + TCPRequest (and other / unreadable frame types), UDPMessage datagrams, repeated auth, close; "
         "connections driven sequentially or concurrently; servers with/without UDP, with no / custom masquerade handler, bandwidth "
         "settings varied; directed templates (proxy attempt before auth on c0 while c1 is accepted; accept-reject-repeat; all "
-        "unauthenticated). After every stream / datagram an ordering barrier (HTTP request on the same connection). "
+        "unauthenticated); ONE credential string presented on several connections while the authenticator's verdict for it differs "
+        "between the presentations (recording authenticator whose verdict is a function of the presenting connection, the attempt "
+        "number, the announced bandwidth and of revoke / grant steps of the history): accepted on one connection and to be rejected on "
+        "another, in both orders, sequentially and concurrently, each followed by proxy attempts on the rejected connection. "
+        "After every stream / datagram an ordering barrier (HTTP request on the same connection). "
         "Non-trivial = the history contains a proxy attempt (0x401 stream or datagram) on a connection that has not been accepted "
         "AND an accepted connection that reaches the outbound. Distinct = distinct JSON history.")
 ASSUMPTIONS = [
@@ -56,6 +60,28 @@ def near_miss(rng, c, n):
             "pad": False, "body": ""}
 
 
+def shared_req(rng, cred, ccrx=None):
+    """an auth request presenting a credential that is NOT tied to one connection (several connections present it)"""
+    return {"m": "POST", "h": "hysteria", "t": "/auth", "auth": cred, "hasa": True,
+            "ccrx": ccrx if ccrx is not None else rng.choice(CCRX_ACCEPTED), "hasrx": True, "pad": rng.random() < 0.5, "body": ""}
+
+
+def rand_pol(rng, nconn):
+    """authenticator policy for one shared credential: verdict = f(presenting connection, attempt number, tx, time)"""
+    r = rng.random()
+    if r < 0.3:
+        return {"conns": sorted(rng.sample(range(nconn), rng.randint(1, max(1, nconn - 1))))}
+    if r < 0.5:
+        return {"max": rng.randint(1, 2)}
+    if r < 0.65:
+        return {"skip": rng.randint(1, 2)}
+    if r < 0.8:
+        return {"maxtx": 70000}
+    if r < 0.9:
+        return {"revoked": True}
+    return {}
+
+
 def rand_cfg(rng):
     return {"udp": rng.random() < 0.8, "masq": rng.choice([0, 0, 1, 2]), "ignbw": rng.random() < 0.25,
             "maxtx": rng.choice([0, 0, 65536, 1000000]), "maxrx": rng.choice([0, 65536, 200000])}
@@ -85,15 +111,59 @@ def act(rng, c, n, kind):
             r["t"] = "/auth"
             rs.append(r)
         return {"c": c, "a": "burst", "burst": rs}
+    if kind.startswith("cred:"):         # "cred:<credential>[:<ccrx>]"
+        p = kind.split(":")
+        return {"c": c, "a": "auth", "req": shared_req(rng, p[1], p[2] if len(p) > 2 else None)}
+    if kind.startswith("revoke:") or kind.startswith("grant:"):
+        a, cred = kind.split(":")
+        return {"c": c, "a": a, "cred": cred}
     return {"c": c, "a": "close"}
 
 
 KINDS = ["good"] * 13 + ["bad"] * 14 + ["miss"] * 12 + ["tcp"] * 27 + ["ft"] * 5 + ["nobytes"] * 2 + ["udp"] * 20 + ["close"] * 5
 
 
-def history(rng, cfg, nconn, par, kinds_by_pos):
+def history(rng, cfg, nconn, par, kinds_by_pos, pol=None):
     acts = [act(rng, c, n, k) for n, (c, k) in enumerate(kinds_by_pos)]
-    return {"k": "hist", "cfg": cfg, "nconn": nconn, "par": par, "acts": acts}
+    h = {"k": "hist", "cfg": cfg, "nconn": nconn, "par": par, "acts": acts}
+    if pol:
+        h["pol"] = pol
+    return h
+
+
+def shared_templates(rng, rep):
+    """One credential string presented on several connections of one server while the authenticator's answer for it
+    differs between the presentations (it depends on the presenting connection, the attempt number, the announced
+    bandwidth, or on a revocation / grant in between).  a = the connection that is to be accepted, b = the one that is
+    to be rejected; both orders; b then tries to proxy, a must (still) be served."""
+    out = []
+    a, b = (0, 1) if rep % 2 == 0 else (1, 0)
+    x = "shared-k%d" % rep
+    cx = "cred:" + x
+    if rep % 4 < 2:
+        cx += ":" + rng.choice(CCRX_ACCEPTED)     # every presentation announces the same bandwidth (same (auth, tx) pair throughout)
+    udp = lambda: dict(rand_cfg(rng), udp=True)
+    # S1 verdict depends on the presenting connection (address): accepted first, then presented by the other one
+    out.append(history(rng, udp(), 2, False, [(a, cx), (b, cx), (b, "tcp"), (b, "udp"), (a, "tcp"), (b, cx), (b, "tcp"), (a, "udp"), (a, "close"),
+                                              (b, cx), (b, "tcp")], {x: {"conns": [a]}}))
+    # S2 the other order: rejected on b first, accepted on a afterwards, b again
+    out.append(history(rng, udp(), 3, False, [(b, cx), (b, "tcp"), (a, cx), (a, "tcp"), (b, cx), (b, "tcp"), (b, "udp"), (2, cx), (2, "tcp"),
+                                              (a, "udp")], {x: {"conns": [a]}}))
+    # S3 verdict depends on time: accepted, revoked, presented again elsewhere; granted again, accepted there
+    out.append(history(rng, udp(), 2, False, [(a, cx), (a, "tcp"), (a, "revoke:" + x), (b, cx), (b, "tcp"), (b, "udp"), (a, "tcp"), (a, cx),
+                                              (a, "grant:" + x), (b, cx), (b, "tcp")], {x: {}}))
+    # S4 revoked at first (rejected), granted, accepted on the other connection; the first one stays shut
+    out.append(history(rng, rand_cfg(rng), 2, False, [(b, cx), (b, "grant:" + x), (a, cx), (b, "tcp"), (b, "udp"), (a, "tcp"), (a, "revoke:" + x),
+                                                      (b, cx), (b, "tcp"), (a, "tcp")], {x: {"revoked": True}}))
+    # S5 verdict depends on the attempt number: only the first presentation is accepted / only the second one is
+    out.append(history(rng, udp(), 3, False, [(a, cx), (b, cx), (2, cx), (b, "tcp"), (2, "udp"), (a, "tcp"), (b, cx), (b, "tcp")], {x: {"max": 1}}))
+    out.append(history(rng, rand_cfg(rng), 2, False, [(b, cx), (a, cx), (b, "tcp"), (b, "udp"), (a, "tcp"), (b, cx), (b, "tcp")], {x: {"skip": 1, "max": 1}}))
+    # S6 verdict depends on the announced bandwidth
+    out.append(history(rng, dict(rand_cfg(rng), ignbw=False), 2, False,
+                       [(a, "cred:" + x + ":65536"), (b, "cred:" + x + ":300000"), (b, "tcp"), (b, "udp"), (a, "tcp"), (b, "cred:" + x + ":4294967296"), (b, "tcp")], {x: {"maxtx": 70000}}))
+    # S7 the same, connections driven concurrently (whatever the order of the presentations turns out to be)
+    out.append(history(rng, udp(), 3, True, [(c, k) for k in (cx, "tcp", "udp", cx, "tcp") for c in (0, 1, 2)], {x: {"conns": [a]}}))
+    return out
 
 
 def gen(rng, tier):
@@ -117,11 +187,20 @@ def gen(rng, tier):
         # T5: concurrent auth attempts on ONE connection (authMutex): judged by the harness verdict only
         cases.append(history(rng, dict(rand_cfg(rng), udp=True), 2, True,
                              [(0, "burst-bad"), (0, "tcp"), (0, "burst-good"), (0, "tcp"), (0, "burst-mixed"), (1, "burst-mixed"), (1, "udp"), (1, "tcp"), (0, "close")]))
-    for _ in range(34 * scale):
+        cases += shared_templates(rng, rep)
+    for i in range(34 * scale):
         nconn = rng.choice([1, 2, 2, 3, 3])
         n = rng.randint(5, 12)
         kinds = [(rng.randrange(nconn), rng.choice(KINDS)) for _ in range(n)]
-        cases.append(history(rng, rand_cfg(rng), nconn, rng.random() < 0.5, kinds))
+        pol = None
+        if i % 2 == 1 and nconn > 1:
+            # shared credentials with a random policy, mixed into the random history
+            creds = ["shared-r%d-%d" % (i, j) for j in range(2)]
+            pol = {x: rand_pol(rng, nconn) for x in creds}
+            extra = ["cred:" + x for x in creds] * 4 + ["revoke:" + creds[0], "grant:" + creds[0], "revoke:" + creds[1], "grant:" + creds[1]]
+            kinds = [(c, rng.choice(extra)) if rng.random() < 0.45 else (c, k) for (c, k) in kinds]
+            kinds += [(c, "tcp") for c in range(nconn)]
+        cases.append(history(rng, rand_cfg(rng), nconn, rng.random() < 0.5, kinds, pol))
     return cases
 
 
